@@ -43,7 +43,10 @@ def inline_helper(prog: Program, module_rel: str, e: ast.expr) -> ast.expr | Non
                                 return clone(mapping[n.id]) if n.id in mapping else n
 
                         self.changed = True
-                        return S().visit(clone(body[0].value))
+                        rv = body[0].value
+                        if isinstance(rv, ast.Call) and isinstance(rv.func, ast.Name) and rv.func.id == "bool" and len(rv.args) == 1 and not rv.keywords:
+                            rv = rv.args[0]  # `return bool(<test>)`: the test itself
+                        return S().visit(clone(rv))
             return node
 
     t = T()
@@ -458,6 +461,21 @@ def _node_disjunctions(v: FnView) -> list:
                             arms.append(fs[0])
                     if len(arms) == 2:
                         out.append((n, [frozenset([arms[0]]), frozenset([arms[1]])]))
+    # a predicate helper whose (inlined) body is a disjunction: its truth establishes the disjunction
+    for n in v.cfg.nodes:
+        if n.kind not in ("T", "F") or not isinstance(n.node, ast.expr):
+            continue
+        h = inline_helper(v.prog, v.fn.module.rel, n.node)
+        if h is None:
+            continue
+        neg = False
+        while isinstance(h, ast.UnaryOp) and isinstance(h.op, ast.Not):
+            h, neg = h.operand, not neg
+        outcome = (n.kind == "T") != neg
+        if isinstance(h, ast.BoolOp) and ((isinstance(h.op, ast.Or) and outcome) or (isinstance(h.op, ast.And) and not outcome)):
+            conj = [frozenset(_facts(x, outcome)) for x in h.values]
+            if all(conj):
+                out.append((n, conj))
     # a flag local assigned in several branches (`if c: ok = A else: ok = B`, then `if ok:`): its test
     # establishes, for each definition, the facts of the defining expression and of the branch it sits in
     from .norm import fact_set
